@@ -372,6 +372,17 @@ class TaskDispatcher(object):
         self.generator = self._dispatcher_generator(selected_tasks)
 
 
+    def cyclic_hold_error(self):
+        """Exception to be raised by a runner that is told to "hold on"
+        while no task is being executed: the tasks that are waiting
+        can only be waiting for each other.
+        """
+        names = sorted(node.task.name for node in self.waiting)
+        msg = ("Cyclic/recursive dependencies, tasks waiting for each other:"
+               " [%s]" % ", ".join(names))
+        return InvalidDodoFile(msg)
+
+
     def _gen_node(self, parent, task_name):
         """return ExecNode for task_name if not created yet"""
         node = self.nodes.get(task_name, None)
